@@ -56,7 +56,7 @@ let run () =
             (* a constructor that throws must give back what it took *)
             let ups = List.filter_map (function EUp (a, s) -> Some (a, s) | _ -> None) events in
             if List.rev ups <> downs then diverge "constructor threw without returning its blocks" line
-          | "ma" :: _, _ ->
+          | ("ma" | "mfa") :: _, _ ->
             (* move assignment onto another allocator: exactly the assigned-to object's own blocks go back, newest first *)
             let ups = List.filter_map (function EUp (a, s) -> Some (a, s) | _ -> None) events in
             if List.rev ups <> downs then diverge "move assignment must return exactly the assigned-to allocator's blocks" line
@@ -105,6 +105,9 @@ let run () =
                  | _ -> (1, 1, 1) in
                let bytes = count * size in
                let oversize = if !is_coll then size > !max_node || size = 0 else size > !pool_ns in
+               (* a request aligned above alignment_for(node size) is refused by the composable traits like an oversize one *)
+               let alfor n = if n >= 16 then 16 else (let rec g p = if 2 * p <= n then g (2 * p) else p in g 1) in
+               let oversize = oversize || (not oversize && al > alfor (max 1 (bucket size))) in
                let r = match rhs with
                  | "ok" :: p :: _ -> ObsOk (zi (int_of_string p))
                  | "null" :: _ -> ObsNull
@@ -154,7 +157,7 @@ let run () =
                                   | Some l -> if iz (l_nfree l) < iz (slots_needed (zi ns) (zi bytes)) then "result returned although the list does not hold that many nodes"
                                     else "result is not a run of nodes that are on the free list (overlaps a live allocation or is no node)"
                                   | None -> "no list")
-                              | ObsNull -> "throwing function returned null"
+                              | ObsNull -> if try_ then "try_ request for a single node refused although the list holds a node" else "throwing function returned null"
                               | ObsThrow -> "try_ function threw"
                               | _ -> "unexpected outcome")) in
                    diverge ("model rejects: " ^ why) line
